@@ -15,6 +15,7 @@ Syntax (prefix, space separated):
   cf      B<0|1> | V<0|1>:<id> | O<0|1> CF CF | A<0|1> CF CF
   clauses L[1,-2][3]   (L alone = empty list, L[] = one empty clause)
 """
+import hashlib
 import signal
 import sys
 import itertools
@@ -188,15 +189,19 @@ def cmd_P(arg):
     out = ['expand=' + show_core(pat)]
     TAUT.trace = None
     TAUT.build = None
-    conj, _, _ = TAUT.to_conj_form(neg(pat))
+    conj, cp1, cp2 = TAUT.to_conj_form(neg(pat))
     out.append('conj=' + show_cf(conj))
+    s1 = show_core(cp1.conc) + '|' + ('-' if cp2 is None else show_core(cp2.conc))
     if isinstance(conj, T.CFBot):
+        out.append('pl=' + hashlib.md5((s1 + '|-').encode()).hexdigest())
         out.append('verdict=' + ('F' if conj.negated else 'T'))
         return ' ; '.join(out)
-    n, _, _ = TAUT.propag_neg(conj)
+    n, np1, np2 = TAUT.propag_neg(conj)
+    out.append('pl=' + hashlib.md5((s1 + '|' + show_core(np1.conc) + '|' + show_core(np2.conc)).encode()).hexdigest())
     out.append('neg=' + show_cf(n))
-    c, _, _ = TAUT.to_cnf(n)
+    c, cq1, cq2 = TAUT.to_cnf(n)
     out.append('cnf=' + show_cf(c))
+    out.append('plc=' + hashlib.md5((show_core(cq1.conc) + '|' + show_core(cq2.conc)).encode()).hexdigest())
     cls, _, _ = TAUT.to_clauses(c)
     out.append('cls=' + show_clauses(cls))
     res = TAUT.start_resolution_algorithm(cls)
